@@ -99,6 +99,13 @@ def run_F(scn: Dict[str, Any], on, plugins=()) -> Dict[str, Any]:
         else:
             mon.ext["degraded_no_seam"] = True
     O.scripted = scripted
+    # markets that join the fundamentals later (public add_market(start_at=k)); zero volatility, so that the
+    # path is known exactly: the initial value up to start_at, then initial * exp(drift * (t - start_at))
+    O.late = []
+    for j, lm in enumerate(F.get("late") or []):
+        f.add_market(market_id=1000 + j, initial=float(lm["initial"]), drift=float(lm["drift"]), volatility=0.0,
+                     start_at=int(lm["start_at"]))
+        O.late.append((1000 + j, float(lm["initial"]), float(lm["drift"]), int(lm["start_at"])))
     res["phase"] = "run"
     try:
         sim._update_times_on_markets(sim.markets)  # t = 0
@@ -220,6 +227,13 @@ class FundOracle:
                 mon.viol("C12", "initial_value", {"market": i, "got": v, "want": self.initial[i]})
         self.trace.append((t, tuple(vals)))
         mon.stat("f_steps")
+        for mid, init, drift, k in getattr(self, "late", []):
+            v = self.f.get_fundamental_price(market_id=mid, time=t)
+            want = init if t <= k else init * math.exp(drift * (t - k))
+            if not close(v, want, 1e-12 * max(1, t - k)):
+                mon.viol("C12", "late_market_path", {"market_id": mid, "t": t, "got": v, "want": want, "start_at": k, "drift": drift})
+            if t > k:
+                mon.probe("late_market_started")
         if t > 0 and t % self.gc == 0:
             mon.probe("generation_chunk_boundary_crossed")
         # frozen history: everything before t must still read as it did
